@@ -498,6 +498,7 @@ func writeEvidence(verifDir string, res *CheckResult, cs *ContractSet, extra map
 		})
 	}
 	var funcs []string
+	var assumedElsewhere []string
 	trusted := map[string]bool{}
 	inlined := map[string]bool{}
 	var scopes []string
@@ -508,6 +509,9 @@ func writeEvidence(verifDir string, res *CheckResult, cs *ContractSet, extra map
 			kind = "panic-sweep only"
 		}
 		funcs = append(funcs, fmt.Sprintf("%s (%s, %d obligations)", x.topLabel, kind, len(x.obls)))
+		if it.c != nil && len(it.c.Tags) > 0 && !hasTag(it.c.Tags, res.Property) {
+			assumedElsewhere = append(assumedElsewhere, fmt.Sprintf("%s (decided by %s)", x.topLabel, strings.Join(it.c.Tags, ",")))
+		}
 		for t := range x.trustedUsed {
 			trusted[t] = true
 		}
@@ -552,6 +556,7 @@ func writeEvidence(verifDir string, res *CheckResult, cs *ContractSet, extra map
 		"inlined_functions":        inl,
 		"scope_preconditions":      scopes,
 		"contracts_from_mirror":    cs.Mirror,
+		"contracts_used_but_decided_by_other_properties": assumedElsewhere,
 		"known_findings_reported":  res.Known,
 	}
 	for k, v := range extra {
